@@ -122,6 +122,157 @@ def nest(v, depth, kind):
 
 HISTORY_OPS = ["h:0", "h:1", "e:0:1", "e:1:0", "h:0.0", "h:1.0", "sg:0", "lk:0:1", "d:0", "sc:0:1"]
 
+# groups of pairwise DIFFERENT values that the library gives one hash (namespace and name bytes of an identifier are hashed back to
+# back; the entry hashes of a map and the element hashes of a set are XOR-combined; list and vector are seeded alike).  Nothing below
+# relies on the hashes being equal: only equality, membership and lookup answers are demanded; the collisions are what makes any
+# strategy that matches members up by hash (sorting, bucketing) go wrong when the members come in a different relative order.
+COLLIDERS = [
+    [b":a/bc", b":ab/c"], [b":user/id", b":userid"], [b"a/bc", b"ab/c", b"abc"], [b":p/qrs", b":pq/rs", b":pqr/s", b":pqrs"],
+    [b"{1 :a 2 :b}", b"{1 :b 2 :a}"], [b"{:k [1] :l [2] :m 3}", b"{:l [1] :k [2] :m 3}"], [b"[:a/bc 7]", b"(:ab/c 7)"],
+    [b"#t :a/bc", b"#t :ab/c"], [b"#{:a/bc 5}", b"#{5 :ab/c}"], [b"[[a/bc]]", b"[[abc]]"],
+]
+
+
+def big_collection_pairs(rng, sizes, nshuffle):
+    """(text a, text b, equal?, family) : sets and maps of `sizes` members (above the cut-over where the reader's duplicate check,
+    and possibly equality, switch to a hash-based strategy) that contain a group of different members with one hash, written in
+    different relative orders; with near misses of the same size (and of the same hash)."""
+    out = []
+
+    def S(xs):
+        return b"#{" + b" ".join(xs) + b"}"
+
+    for g in COLLIDERS:
+        kv = dict((x, b"%d" % (100 + i)) for i, x in enumerate(g))
+
+        def MK(xs, swap=False):  # group members are keys
+            d = dict(kv)
+            if swap:
+                d[g[0]], d[g[1]] = d[g[1]], d[g[0]]
+            return b"{" + b", ".join(x + b" " + d.get(x, x) for x in xs) + b"}"
+
+        for n in sizes:
+            F = [b"%d" % i for i in range(1, n - len(g) + 1)]
+            spare = b"%d" % (n + 7)
+            mid = len(F) // 2
+            front, back = g + F, F + g
+            inter = [g[0]] + F[:mid] + g[1:] + F[mid:]
+            orders = [(front, g[::-1] + F, "swap-only"), (back, g[1:] + g[:1] + F, "moved"), (inter, back[::-1], "reversed")]
+            for _ in range(nshuffle):
+                x, y = list(inter), list(inter)
+                rng.shuffle(x)
+                rng.shuffle(y)
+                orders.append((x, y, "shuffled"))
+            for x, y, how in orders:
+                out.append((S(x), S(y), True, "set/" + how))
+                out.append((MK(x), MK(y), True, "map-keys/" + how))
+                # group members as the values of integer keys (the i-th member of x under key i)
+                vals = dict((b"%d" % (i + 1), m) for i, m in enumerate(front))
+                order_y = [b"%d" % (front.index(m) + 1) for m in y]
+                order_x = [b"%d" % (front.index(m) + 1) for m in x]
+                out.append((b"{" + b" ".join(k + b" " + vals[k] for k in order_x) + b"}", b"{" + b" ".join(k + b" " + vals[k] for k in order_y) + b"}", True, "map-values/" + how))
+            # near misses with the same number of members
+            out.append((S(front), S(g[:-1] + F + [spare]), False, "set/one-member-replaced"))
+            F1 = [b"%d" % i for i in range(1, n)]
+            out.append((S([g[0]] + F1), S(F1 + [g[1]]), False, "set/member-replaced-by-same-hash"))
+            out.append((MK(front), MK(g[::-1] + F, swap=True), False, "map-keys/values-of-same-hash-keys-swapped"))
+            out.append((MK([g[0]] + F1), MK(F1 + [g[1]], swap=True), False, "map-keys/key-replaced-by-same-hash"))
+            out.append((b"{" + b" ".join(b"%d %s" % (i + 1, m) for i, m in enumerate(front)) + b"}",
+                        b"{" + b" ".join(b"%d %s" % (i + 1, m) for i, m in enumerate(g[::-1] + F)) + b"}", False, "map-values/same-hash-values-swapped"))
+    return out
+
+
+def _hx(b):
+    return C.hexs(b)
+
+
+def convenience_scripts(rng, cfg, sizes, nrandom):
+    """(script, probes, nreads, what, family): the convenience lookups (keyword / namespaced keyword / string key) and edn_string_equals as
+    part of the history-independence statement.  A map of n entries (below, at and above the size where the reader hashes the keys)
+    holds one target key (plain keyword, namespaced keyword, string; first, middle, last) next to keys of every kind, among them
+    different keys with the target's hash.  The same probes are asked on the fresh map, after a history of hash / equal / lookup /
+    string-get calls, after hashing the stored key itself and after hashing the map: the target's value every time, and `none` every
+    time for a key that is not there.  probes = [(operation index, expected output or None = the answer of the first time this probe
+    was asked)]."""
+    out = []
+    # (kind, stored text, probe op for map register 0, texts of different keys that hash like it, their probe ops)
+    targets = [
+        ("keyword", b":nsk", "gk:0:" + _hx(b"nsk"), [b":ns/k", b":n/sk"]),
+        ("keyword", b":plain", "gk:0:" + _hx(b"plain"), [b":pla/in", b"\"plain\""]),
+        ("namespaced-keyword", b":ns/k", "gn:0:%s:%s" % (_hx(b"ns"), _hx(b"k")), [b":nsk", b":n/sk"]),
+        ("namespaced-keyword", b":user.name/first-name", "gn:0:%s:%s" % (_hx(b"user.name"), _hx(b"first-name")), [b":user.namefirst-name", b":user.name/first-nam"]),
+        ("namespaced-keyword", b":a/bc", "gn:0:%s:%s" % (_hx(b"a"), _hx(b"bc")), [b":ab/c", b":abc"]),
+        ("string", b"\"nsk\"", "gs:0:" + _hx(b"nsk"), [b":nsk", b"\"ns/k\""]),
+        ("string", b"\"a b, c\"", "gs:0:" + _hx(b"a b, c"), [b"\"a b,c\"", b"\"a b, c \""]),
+    ]
+    absent = {b":ns/k": "gn:0:%s:%s" % (_hx(b"ns"), _hx(b"k")), b":n/sk": "gn:0:%s:%s" % (_hx(b"n"), _hx(b"sk")), b":nsk": "gk:0:" + _hx(b"nsk"),
+              b":pla/in": "gn:0:%s:%s" % (_hx(b"pla"), _hx(b"in")), b"\"plain\"": "gs:0:" + _hx(b"plain"),
+              b":user.namefirst-name": "gk:0:" + _hx(b"user.namefirst-name"), b":user.name/first-nam": "gn:0:%s:%s" % (_hx(b"user.name"), _hx(b"first-nam")),
+              b":ab/c": "gn:0:%s:%s" % (_hx(b"ab"), _hx(b"c")), b":abc": "gk:0:" + _hx(b"abc"), b"\"ns/k\"": "gs:0:" + _hx(b"ns/k"),
+              b"\"a b,c\"": "gs:0:" + _hx(b"a b,c"), b"\"a b, c \"": "gs:0:" + _hx(b"a b, c ")}
+
+    def filler(i):
+        return [b":f%d" % i, b":g%d/f" % i, b"\"s%d\"" % i, b"%d" % i, b"f%d" % i, b":g/f%d" % i][i % 6]
+
+    for n in sizes:
+        for kind, tkey, tprobe, twins in targets:
+            for pos in sorted(set([0, n // 2, n - 1])):
+                for present_twins in ((0, 1) if n >= 3 else (0,)):
+                    # the other keys: fillers of every kind; optionally the first different key of equal hash is in the map too
+                    others = [filler(i) for i in range(n - 1)]
+                    if present_twins:
+                        others[(pos + 1) % (n - 1)] = twins[0]
+                    keys = others[:pos] + [tkey] + others[pos:]
+                    val = dict((k, b"%d" % (100 + i)) for i, k in enumerate(keys))
+                    doc = b"{" + b" ".join(k + b" " + val[k] for k in keys) + b"}"
+                    perm = list(keys)
+                    rng.shuffle(perm)
+                    doc2 = b"{" + b", ".join(k + b" " + val[k] for k in perm) + b"}"
+                    want = "(int %s)" % val[tkey].decode()
+                    probes = [(tprobe, want), ("lk:0:2", want), ("ck:0:2", "1")]
+                    for tw in twins:
+                        probes.append((absent[tw], "(int %s)" % val[tw].decode() if tw in val else "none"))
+                    tk, tv = "0.%d" % (2 * pos), "0.%d" % (2 * pos + 1)
+                    allkeys = ["h:0.%d" % (2 * i) for i in range(n)]
+                    hists = [[], ["h:0"], ["h:" + tk], ["h:" + tv], allkeys, ["lk:0:2"], ["ck:0:2"], ["e:0:1"], ["e:1:0", "h:1"], ["e:%s:2" % tk], ["h:2", "e:2:" + tk],
+                             ["h:2", "lk:0:2"], [tprobe, tprobe], ["sg:" + tk], ["h:0", "h:" + tk, "h:2"], ["lk:1:2", "h:1.%d" % (2 * perm.index(tkey))]]
+                    pool = hists[1:] and [op for h in hists[1:] for op in h]
+                    for _ in range(nrandom):
+                        hists.append([rng.choice(pool) for _ in range(rng.randint(2, 5))])
+                    for h in hists:
+                        ops, pr = ["r0=" + _hx(doc), "r1=" + _hx(doc2), "r2=" + _hx(tkey)], []
+                        for stage in (h, ["h:" + tk], ["h:0"], None):
+                            for p, w in probes:
+                                pr.append((len(ops), w))
+                                ops.append(p)
+                            if stage is not None:
+                                ops += stage
+                        out.append(("Q " + " ".join(ops), pr, 3, "%s key %s at %d of %d%s" % (kind, tkey.decode(), pos, n, ", with a different key of the same hash" if present_twins else ""),
+                                    "%s/%s-entries" % (kind, "over-16" if n > 16 else "up-to-16")))
+    # the reader-made keys of a namespaced map (Clojure option) and escaped spellings: only `the same answer every time` is demanded
+    soft = [(b"{\"a\\nb\" 1 :k 2}", "gs:0:" + _hx(b"a\nb"), "0.0"), (b"{\"tab\\there\" 1}", "gs:0:" + _hx(b"tab\there"), "0.0")]
+    if cfg in ("clj", "both"):
+        soft += [(b"#:ns{:k 1 :other/x 2 :_/y 3}", "gn:0:%s:%s" % (_hx(b"ns"), _hx(b"k")), "0.0"), (b"#:ns{:a 1 :k 2}", "gn:0:%s:%s" % (_hx(b"ns"), _hx(b"k")), "0.2"),
+                 (b"#:ns{" + b" ".join(b":k%d %d" % (i, i) for i in range(20)) + b"}", "gn:0:%s:%s" % (_hx(b"ns"), _hx(b"k7")), "0.14")]
+    for doc, probe, tk in soft:
+        for h in ([], ["h:0"], ["h:" + tk], ["sg:" + tk], ["h:" + tk, "h:0"], ["e:0:1"], ["lk:0:1." + tk[2:]], ["h:1", "e:1:0", "h:" + tk]):
+            ops = ["r0=" + _hx(doc), "r1=" + _hx(doc), probe] + list(h) + [probe, "h:" + tk, probe, "h:0", probe]
+            pr = [(i, None) for i, o in enumerate(ops) if o == probe]
+            out.append(("Q " + " ".join(ops), pr, 2, "lookup %s in %s" % (probe, doc.decode("latin-1")), "same-answer-every-time"))
+    # edn_string_equals before and after hashing / fetching / comparing the string
+    strs = [(b"\"name\"", b"name", "1"), (b"\"name\"", b"nam", "0"), (b"\"name\"", b"name2", "0"), (b"\"\"", b"", "1"), (b"\"\"", b"x", "0"),
+            (b"\"0123456789abcdef0123456789abcdef!\"", b"0123456789abcdef0123456789abcdef!", "1"), (b"\"0123456789abcdef0123456789abcdef!\"", b"0123456789abcdef0123456789abcdef?", "0"),
+            (b"\"a\\nb\"", b"a\nb", None), (b"\"a\\nb\"", b"a\\nb", None), (b"\"q\\\\\"", b"q\\", None)]
+    for sdoc, text, want in strs:
+        for wrap, path in ((b"%s", "0"), (b"[1 %s]", "0.1"), (b"{%s 1}", "0.0"), (b"#{%s}", "0.0")):
+            doc = wrap % sdoc
+            probe = "se:%s:%s" % (path, _hx(text))
+            for h in ([], ["h:" + path], ["sg:" + path], ["h:0"], ["e:0:1"], ["sg:" + path, "h:" + path], ["h:" + path, "sg:" + path], ["e:1:0", "h:1", "sg:1" + path[1:]]):
+                ops = ["r0=" + _hx(doc), "r1=" + _hx(doc), probe] + list(h) + [probe, "sg:" + path, probe, "h:0", probe]
+                pr = [(i, want) for i, o in enumerate(ops) if o == probe]
+                out.append(("Q " + " ".join(ops), pr, 2, "edn_string_equals(%s, %r)" % (sdoc.decode("latin-1"), text.decode("latin-1")), "string-equals"))
+    return out
+
 
 def run(tier):
     rep = C.Report(PID, tier, "proof")
@@ -161,6 +312,28 @@ def run(tier):
             text_pairs.append((b"#{" + x + b" " + fill + b" 16 17}", b"#{" + y + b" " + fill + b" 16 17}", False))
             text_pairs.append((b"{" + x + b" 1 " + y + b" 2 " + b" ".join(b"%d %d" % (i, i) for i in range(1, 16)) + b"}",
                                b"{" + y + b" 2 " + b" ".join(b"%d %d" % (i, i) for i in range(1, 16)) + b" " + x + b" 1}", True))
+        big = big_collection_pairs(rng, (17, 18, 40) if tier == "quick" else (17, 18, 19, 32, 33, 40, 100), 1 if tier == "quick" else 4)
+        for a, b, eq, fam in big:
+            rep.count("big-collection-with-same-hash-members/%s/%s" % (fam, cfg))
+            for h in ([], ["h:0"], ["h:1", "h:0"], ["e:0:1"], ["h:0.0", "h:1.1", "h:1.0"], ["e:0.0:1.0", "e:0.0:1.1", "e:0.1:1.0"]):
+                scripts.append("Q r0=%s r1=%s %s" % (C.hexs(a), C.hexs(b), " ".join(h + ["e:0:1", "e:1:0", "h:0", "h:1", "e:0:1", "e:1:0"])))
+                expects.append(("pair", eq, len(h), (a, b)))
+        # ... and such collections as members themselves: inside a vector, as the key and the value of a map, as a set member
+        for a, b, eq, fam in big:
+            if not (fam.endswith("swap-only") or fam.endswith("swapped")) or len(a) > 200:
+                continue
+            for wrap in (b"[%s 1]", b"{%s 1}", b"{:k %s}", b"#{%s 1}", b"#t %s"):
+                rep.count("big-collection-nested/%s" % cfg)
+                for h in ([], ["h:0", "h:1"], ["h:0.0"]):
+                    scripts.append("Q r0=%s r1=%s %s" % (C.hexs(wrap % a), C.hexs(wrap % b), " ".join(h + ["e:0:1", "e:1:0", "h:0", "h:1", "e:0:1", "e:1:0"])))
+                    expects.append(("pair", eq, len(h), (wrap % a, wrap % b)))
+        big_members = [(a, b, eq) for a, b, eq, fam in big if len(a) < 200 and ("shuffled" not in fam and "moved" not in fam)]
+        # the convenience lookups and edn_string_equals, fresh and after every kind of earlier call
+        conv = convenience_scripts(rng, cfg, (1, 2, 3, 16, 17, 40) if tier == "quick" else (1, 2, 3, 4, 8, 15, 16, 17, 18, 33, 40, 100), 2 if tier == "quick" else 8)
+        for line, probes, nreads, what, fam in conv:
+            rep.count("convenience-lookup-histories/%s/%s" % (fam, cfg))
+            scripts.append(line)
+            expects.append(("probe", probes, nreads, what))
         for a, b, eq in text_pairs:
             for h in ([], ["h:0"], ["h:1", "h:0"], ["e:0:1"]):
                 scripts.append("Q r0=%s r1=%s %s" % (C.hexs(a), C.hexs(b), " ".join(h + ["e:0:1", "e:1:0", "h:0", "h:1", "e:0:1", "e:1:0"])))
@@ -179,8 +352,9 @@ def run(tier):
         # below, at and above the element count where keys get hashed at read time, before and after hashing
         mpairs = [(G.render(rng, v, cfg, rich=False), G.render(rng, w, cfg, rich=False), eq) for v in pool for w, eq in variants(rng, v, cfg)]
         mpairs += text_pairs
-        for a, b, eq in mpairs:
-            for extra in (1, 15, 16):
+        rep.count("membership-pairs/" + cfg, len(mpairs) + len(big_members))
+        for a, b, eq, sizes in [(a, b, eq, (1, 15, 16)) for a, b, eq in mpairs] + [(a, b, eq, (1, 15, 16, 39)) for a, b, eq in big_members]:
+            for extra in sizes:
                 fl = [b":filler%d" % i for i in range(extra)]
                 sdoc = b"#{" + a + b" " + b" ".join(fl) + b"}"
                 mdoc = b"{" + a + b" 1 " + b" ".join(f + b" 0" for f in fl) + b"}"
@@ -238,6 +412,26 @@ def run(tier):
                 continue
             toks = out.split("\t")
             kind, eq, nh, what = exp
+            if kind == "probe":
+                probes, nreads = eq, nh
+                if toks[:nreads] != ["ok"] * nreads:
+                    continue
+                ops = scripts[i].split(" ")[1:]
+                first, bad = {}, []
+                for ti, want in probes:
+                    got = toks[ti] if ti < len(toks) else "?"
+                    ref = first.setdefault(ops[ti], got) if want is None else want
+                    if got != ref:
+                        bad.append((ti, ops[ti], got, ref))
+                if bad:
+                    found = True
+                    ti, op, got, ref = bad[0]
+                    fresh = set(range(nreads, ti)) <= set(t2 for t2, _ in probes)  # nothing but probes was called before
+                    rep.finding("algebra/lookup-wrong-on-fresh-value" if fresh else "algebra/lookup-depends-on-history",
+                                "%s: operation %d (%s) answered %s, expected %s%s; %d of %d probes of this script are wrong" % (
+                                    what, ti, op, got, ref, "" if fresh else " (after the calls " + " ".join(ops[nreads:ti]) + ")", len(bad), len(probes)),
+                                {"kind": "script", "config": cfg, "line": scripts[i], "observed": out, "what": what})
+                continue
             if kind == "member":
                 if toks[:4] != ["ok", "ok", "ok", "ok"]:
                     continue
